@@ -1,8 +1,9 @@
 import MwVerif.Driver.Common
 import MwVerif.Model.Tree
+import MwVerif.Model.Passes
 
 /-! `ops <tree>;<op>;<op>;…` — tree in prefix form `id:kind:nchildren` tokens; ops `d<x>` dissolve,
-`r<x>` remove, `m<x>,<target>,<0|1>` move_to (1 = before), `a<p>,<x>` detach x and append it to p.
+`r<x>` remove, `p` one call of `_fix_paragraphs`, `P` the pass `fix_paragraphs`, `m<x>,<target>,<0|1>` move_to (1 = before), `a<p>,<x>` detach x and append it to p.
 Reply: the tree after all ops in the same form. -/
 namespace MwVerif.Driver.Tree
 open MwVerif.Tree MwVerif.Driver
@@ -30,6 +31,8 @@ def applyOp (t : T) (op : String) : T :=
   let body := (op.drop 1).toString
   if op.startsWith "d" then t.dissolve (body.toNat?.getD 0)
   else if op.startsWith "r" then t.remove (body.toNat?.getD 0)
+  else if op = "p" then (t.fixParaStep).getD t
+  else if op = "P" then fixParagraphs (t.size * t.size) t
   else if op.startsWith "m" then
     match nums body with
     | [x, tg, b] => t.moveTo x tg (b = 1)
